@@ -49,11 +49,11 @@ PROPS = {
                  'T8 backends behind the VFS are arbitrary (uninterpreted results) and are reached only through capability-guarded calls'],
     ),
     'C07': dict(
-        vx_units=['vfs', 'vfsmount'], kx=[], rx=['vfs'],
+        vx_units=['vfs', 'vfsmount', 'pseudofs'], kx=[], rx=['vfs'],
         design_ref='DESIGN.md section 5, C07',
         not_covered=[
             'over operation HISTORIES the mount table is covered step-wise: routing (unit vfs) is proved for an arbitrary table satisfying Vfs::wf(), and every table operation (allocate_fs_idx, insert_mount_locked, mount_with_id_mapping, umount; unit vfsmount, rule R25) is proved to preserve it and to change exactly the slot it names; interleavings of mount operations with requests (ArcSwap readers during a mount) are not covered',
-            'Vfs::readdir / readdirplus: the four entry-rewriting closures are verified after closure lifting (R17); that the backend calls them for its entries, and PseudoFs::do_readdir itself, are not covered',
+            'Vfs::readdir / readdirplus: the four entry-rewriting closures are verified after closure lifting (R17); that a backend calls them for its entries is not covered (PseudoFs::do_readdir is: unit pseudofs); the pseudo tree (mount, path_walk, lookup, evict) is covered by unit pseudofs in the sequential model - the unlocked optimistic scans, readers during mount / evict and exhaustion of the 2^56 pseudo inode numbers (a precondition) are not; vfsmount still treats what a path resolves to as uninterpreted (the definitions exist in pseudofs: mount_spec / walk_spec)',
             'that result-less forget reaches the backend at least once (capabilities can forbid calls, not demand them)',
         ],
         trusted=['T3 ArcSwap as a sequential cell (`cur`), std HashMap/Vec via vstd, Arc clone = same value (axiom_arc_cloned), Result::and_then by assume_specification',
@@ -69,10 +69,10 @@ PROPS = {
         trusted=['T3 as for C07', 'T8 every configured mapping satisfies internal+range <= 2^32 and external+range <= 2^32 (map_ok; Vfs::new never validates it - DESIGN.md section 7, O2)'],
     ),
     'C01': dict(
-        vx_units=['server', 'fusedevw', 'cstrs', 'virtiofsw', 'writerenum'], kx=[], rx=['server', 'readdir'],
+        vx_units=['server', 'fusedevw', 'cstrs', 'virtiofsw', 'writerenum', 'pseudofs'], kx=[], rx=['server', 'readdir'],
         # "check_available_space refuses writes beyond capacity" on the virtio-fs side and the Writer enum handing every write to the wrapped writer are C04 obligations
         # of units virtiofsw / writerenum: a failure of one of these counts for C01 ("never touches memory outside the supplied buffers ... over either transport") as well
-        alias=[r'^C04\.vwriter\.space', r'^C04\.\w+\.exceeds_fails', r'^C04\.writer\.'],
+        alias=[r'^C04\.vwriter\.space', r'^C04\.\w+\.exceeds_fails', r'^C04\.writer\.', r'^C16\.pseudo\.do_readdir\.offset_overflow'],      # + the pseudo fs listing must not panic on a hostile offset (D22)
         design_ref='DESIGN.md section 5, C01',
         not_covered=[
             'memory safety of the unsafe blocks below the transport seam (get_message_body::set_len, Reader::read_obj, FuseDevWriter raw Vecs, virtio copy_nonoverlapping) and descriptor-chain construction',
@@ -104,10 +104,10 @@ PROPS = {
         trusted=['T3 as C01', 'T4 as C01'],
     ),
     'C16': dict(
-        vx_units=['server', 'ptreaddir'], kx=[], rx=['readdir', 'pt'],
+        vx_units=['server', 'ptreaddir', 'pseudofs'], kx=[], rx=['readdir', 'pt'],
         design_ref='DESIGN.md A.4 / A.6 (D15)',
         not_covered=[
-            'the closures of passthrough readdir / readdirplus (unit ptlookup, C08: reference accounting); Server::do_readdir\'s closure, PseudoFs::do_readdir, the VFS wrappers',
+            'the closures of passthrough readdir / readdirplus (unit ptlookup, C08: reference accounting); the VFS wrappers around a backend listing; for the pseudo fs: the composition of the lifted readdirplus closure with the continuation (adapter `plus_sink`, assumed), "no reply exceeds the requested size" is the server side (add_dirent)',
             'stale cookies on the lseek path (file-system specific); releasedir / handle-reuse hygiene of the cookie table; concurrency',
             'that the capacity of the getdents buffer is >= size; that each exchange is one do_readdir call on an UNCHANGED directory (hypotheses of the cross-call lemma)',
         ],
